@@ -53,5 +53,15 @@ VH_DRIVER(memory){
     g.count(epkey+std::to_string(plan),true); if(ep%501==0) g.sample(J().str("episode",epkey).num("failure_plan",plan).done()); }
   // the library's own manager test on a completed manager and the emulation helpers on a complete one
   { Backend be; UriMemoryManager mm; memset(&mm,0,sizeof mm); uriCompleteMemoryManager(&mm,&be.mm); int rc=uriTestMemoryManager(&mm); if(rc!=URI_SUCCESS||!be.live.empty()||be.bad) g.violation(J().str("prop","C15").str("why","uriTestMemoryManager fails on a completed manager, or backend blocks stay outstanding").num("rc",rc).done()); }
+  // the two emulation helpers called DIRECTLY on a complete manager (public functions in their own right): overflowing products are refused
+  // with ENOMEM before the manager is asked; otherwise calloc = malloc + zero fill, reallocarray = realloc of the product
+  { const size_t SM=(size_t)-1; const size_t F[]={0,1,2,3,7,4096,(size_t)1<<31,(size_t)1<<32,((size_t)1<<32)+1,(size_t)1<<62,((size_t)1<<62)+6,(size_t)1<<63,((size_t)1<<63)+4,SM/2,SM/2+1,SM/3,SM-1,SM};
+    for(size_t a:F) for(size_t b:F){ RecMM rec; size_t tot=0; bool ovf=__builtin_mul_overflow(a,b,&tot); bool small= !ovf && tot<=((size_t)1<<20);
+      errno=0; void*p=uriEmulateCalloc(&rec.mm,a,b); int en=errno; bool zero=true; if(p&&small){ for(size_t i=0;i<tot;++i) if(((unsigned char*)p)[i]){ zero=false; break; } memset(p,0xAB,tot); }
+      size_t reqs=rec.log.size();
+      errno=0; void*q=uriEmulateReallocarray(&rec.mm,p,b,a); int en2=errno; bool kept=true; if(q&&p&&small){ for(size_t i=0;i<tot;++i) if(((unsigned char*)q)[i]!=0xAB){ kept=false; break; } }
+      if(q) rec.mm.free(&rec.mm,q); else if(p && !(!ovf && tot==0)) rec.mm.free(&rec.mm,p);
+      g.event_to(0,J().str("e","EmuCall").boo("ovf",ovf).boo("small",small).boo("zeroprod",!ovf&&tot==0).num("ret",p?1:0).num("en",en).boo("zeroOK",zero).num("reqs",(long long)reqs).num("ret2",q?1:0).num("en2",en2).boo("keptOK",kept)
+        .num("leak",(long long)rec.outstanding()).boo("bad",rec.bad).num("a",size_class(a)).num("b",size_class(b)).done()); rec.release_all(); g.count("emu"+std::to_string(a)+"x"+std::to_string(b),true); } }
   return 0;
 }
